@@ -18,6 +18,10 @@ def gen(rng, tier, boost):
         v, out = jc.gen_doc(rng, w, maxlen=rng.choice([40, 100, 200]))
         cases.append(jc.g_case(w, v, out, jc.gen_ws(rng), jc.gen_ws(rng)))
         dist["generated_doc"] += 1
+    nh = (2000 if tier == "quick" else 40000) * boost
+    for _ in range(nh):
+        cases.append(jc.h_case(rng, rng.randrange(4)))
+    dist["stream_history"] = nh
     return cases, dist
 
 
